@@ -517,6 +517,13 @@ def pipeline_extra(res):
     return out
 
 
+def _source_key(o, msg):
+    """known-finding key explained by a construct of the source network (stream_checks.classify_source), or None"""
+    import stream_checks
+
+    return stream_checks.classify_source(o, msg)
+
+
 def pipeline_level(ck, outs):
     """judge the `extra` records of the compiled corpus. Returns (feature maps compared, streams checked)."""
     lines, owners = [], []
@@ -569,7 +576,7 @@ def pipeline_level(ck, outs):
                      {"profile": o["profile"], "seed": o["seed"], "index": o["idx"], "opts": o.get("opts"), "network": o.get("desc"),
                       "stream": si, "spec_verdict": a[:1500], "alloccheck_request_head": line[:600],
                       "how_to_replay": "./check C02 --replay <this file> recompiles (seed, index, profile)"},
-                     found_input=True)
+                     found_input=True, key=_source_key(o, msg))
     for o, si, line, real, a, what in cfm_bad[:4]:
         ck.violation(f"model and create_feature_map disagree ({len(cfm_bad)} feature maps): {what}: real '{real}' model '{a}' "
                      f"(network {o['idx']} {o['profile']} {o.get('opts')})",
